@@ -409,6 +409,7 @@ func init() {
 		// (c) scaling probe (search only; ANTLR timing depends on its caches, so only a persistent
 		// cubic signal above one second is reported, and the two known families are listed findings)
 		c08Scaling(c)
+		c08ModelScaling(c)
 		c.Sample(map[string]any{"mutated_dsl": mutate(rand.New(rand.NewSource(1)), dsl[0])})
 	}
 }
@@ -474,6 +475,132 @@ func c08Scaling(c *Ctx) {
 				c.KnownHit("KF-C08-newline-rule-cubic", map[string]any{"family": name, "sizes": sizes[:len(times)], "seconds": times})
 			} else {
 				c.OracleFail("c08:scaling", map[string]any{"family": name, "sizes": sizes[:len(times)], "seconds": times}, "work grows at least cubically with the input length", "")
+			}
+		}
+	}
+}
+
+// c08ModelScaling: families of *models* of growing size through the entry points that work on a model
+// (printer, plain graph with DOT and path queries, weighted graph). The DSL families above only
+// exercise the parser; here the shapes are the ones a graph algorithm can blow up on: chains of
+// diamonds (a relation reached through two tuple-free paths per level), long chains of computed
+// usersets, TTUs and usersets, interlocking tuple cycles, wide unions and restriction lists.
+// Search only: a call that does not return within the limit, or whose time grows at least cubically
+// above one second, is reported. Elementary-cycle enumeration (GetCycles) is left out: its output can
+// be exponentially large by definition.
+func c08ModelScaling(c *Ctx) {
+	head := "model\n  schema 1.1\ntype user\ntype doc\n  relations\n    define p: [doc]\n"
+	chain := func(n int, step func(i int) string, last string) string {
+		var b strings.Builder
+		b.WriteString(head)
+		for i := 0; i < n; i++ {
+			b.WriteString(step(i))
+		}
+		b.WriteString(fmt.Sprintf("    define r%d: %s\n", n, last))
+		return b.String()
+	}
+	families := map[string]func(n int) string{
+		"diamond-or": func(n int) string {
+			return chain(n, func(i int) string { return fmt.Sprintf("    define r%d: r%d or r%d\n", i, i+1, i+1) }, "[user]")
+		},
+		"diamond-and": func(n int) string {
+			return chain(n, func(i int) string { return fmt.Sprintf("    define r%d: r%d and r%d\n", i, i+1, i+1) }, "[user]")
+		},
+		"diamond-but-not": func(n int) string {
+			return chain(n, func(i int) string { return fmt.Sprintf("    define r%d: r%d but not r%d\n", i, i+1, i+1) }, "[user]")
+		},
+		"diamond-split": func(n int) string {
+			return chain(n, func(i int) string {
+				return fmt.Sprintf("    define r%d: a%d or b%d\n    define a%d: r%d\n    define b%d: r%d\n", i, i, i, i, i+1, i, i+1)
+			}, "[user]")
+		},
+		"diamond-ttu": func(n int) string {
+			return chain(n, func(i int) string { return fmt.Sprintf("    define r%d: [user] or r%d from p or r%d from p\n", i, i+1, i+1) }, "[user]")
+		},
+		"diamond-userset": func(n int) string {
+			return chain(n, func(i int) string { return fmt.Sprintf("    define r%d: [doc#r%d, user] or r%d\n", i, i+1, i+1) }, "[user]")
+		},
+		"computed-chain": func(n int) string {
+			return chain(n, func(i int) string { return fmt.Sprintf("    define r%d: r%d\n", i, i+1) }, "[user]")
+		},
+		"tuple-cycle-ring": func(n int) string {
+			return chain(n, func(i int) string { return fmt.Sprintf("    define r%d: [user, doc#r%d]\n", i, i+1) }, "[user, doc#r0]")
+		},
+		"tuple-cycle-mesh": func(n int) string {
+			return chain(n, func(i int) string {
+				return fmt.Sprintf("    define r%d: [user, doc#r%d, doc#r%d]\n", i, i+1, (i*7+3)%(n+1))
+			}, "[user, doc#r0]")
+		},
+		"wide-union": func(n int) string {
+			ops := []string{"[user]"}
+			for i := 0; i < 8*n; i++ {
+				ops = append(ops, "p")
+			}
+			return head + "    define w: " + strings.Join(ops, " or ") + "\n"
+		},
+		"wide-restrictions": func(n int) string {
+			var b strings.Builder
+			b.WriteString("model\n  schema 1.1\ntype user\n")
+			ts := []string{"user"}
+			for i := 0; i < 4*n; i++ {
+				b.WriteString(fmt.Sprintf("type t%d\n", i))
+				ts = append(ts, fmt.Sprintf("t%d", i), fmt.Sprintf("t%d:*", i))
+			}
+			b.WriteString("type doc\n  relations\n    define w: [" + strings.Join(ts, ", ") + "]\n    define v: w or w\n")
+			return b.String()
+		},
+	}
+	entry := map[string]func(m *openfgav1.AuthorizationModel){
+		"TransformJSONProtoToDSL": func(m *openfgav1.AuthorizationModel) { _, _ = transformer.TransformJSONProtoToDSL(m) },
+		"NewAuthorizationModelGraph+DOT+PathExists": func(m *openfgav1.AuthorizationModel) {
+			g, err := graph.NewAuthorizationModelGraph(m)
+			if err == nil && g != nil {
+				_ = g.GetDOT()
+				_, _ = g.PathExists("doc#r0", "user")
+				if r, err := g.Reversed(); err == nil {
+					_, _ = r.PathExists("user", "doc#r0")
+				}
+			}
+		},
+		"WeightedAuthorizationModelGraphBuilder.Build": func(m *openfgav1.AuthorizationModel) {
+			_, _ = graph.NewWeightedAuthorizationModelGraphBuilder().Build(m)
+		},
+	}
+	sizes := []int{8, 16, 32, 64}
+	if c.Thorough() {
+		sizes = append(sizes, 128, 256)
+	}
+	limit := 10 * time.Second
+	for _, name := range sortedKeys(families) {
+		f := families[name]
+		for _, en := range sortedKeys(entry) {
+			run := entry[en]
+			times := []float64{}
+			aborted := false
+			for _, n := range sizes {
+				m, err := transformer.TransformDSLToProto(f(n))
+				if err != nil {
+					c.Note("model-scaling family " + name + " does not parse: " + trunc(err.Error(), 200))
+					break
+				}
+				p, el, to := timed(limit, func() { run(m) })
+				c.Dist("model_scaling_calls")
+				if p != "" {
+					c.OracleFail("c08:panic/model-scaling", map[string]any{"family": name, "n": n, "entry_point": en, "dsl": f(n)}, "panic: "+p, "")
+				}
+				times = append(times, el.Seconds())
+				if to {
+					aborted = true
+					break
+				}
+			}
+			k := len(times)
+			cubic := k >= 4 && times[k-1] > 1.0 && times[k-1]/times[k-2] >= 7 && times[k-2]/times[k-3] >= 7 && times[k-3]/times[k-4] >= 7
+			if aborted || cubic {
+				c.OracleFail("c08:model-scaling", map[string]any{"family": name, "entry_point": en, "sizes": sizes[:k], "seconds": times, "dsl_at_smallest_size": f(sizes[0])},
+					fmt.Sprintf("%s on the model family %q: work grows at least cubically with the size of the model, or the call did not return within %v (sizes %v, seconds %.3f)", en, name, limit, sizes[:k], times), "")
+			} else if k > 0 && times[k-1] > 0.5 {
+				c.Note(fmt.Sprintf("model-scaling %s / %s sizes=%v seconds=%.3f", name, en, sizes[:k], times))
 			}
 		}
 	}
